@@ -466,6 +466,120 @@ def stream_saveload(ctx, reqs, sc):
     return cases
 
 
+# ----------------------------------------------------------------- stream: savehist
+#
+# Histories of saves into ONE project directory: a project.json may already be there (an earlier save of other
+# settings, longer or shorter; a file written by something else).  After every save the file must hold exactly
+# what that save serialised (model: Model/ProjFile.trace with the open mode read from Project.save) and load()
+# must give the settings just saved (oracle).
+
+def gen_savehist_case(rng):
+    proj_rel = rng.choice(['pr', 'w/pr'])
+    n = rng.randint(2, 4)
+    steps = []
+    for _ in range(n):
+        c = gen_saveload_case(rng)
+        kw = dict(c['kw'])
+        kw['path'] = ['str', B + '/' + proj_rel]
+        if isinstance(kw.get('environment_path'), list) and kw['environment_path'][0] == 'path':
+            kw['environment_path'] = ['str', kw['environment_path'][1]]
+        steps.append(kw)
+    # make the lengths differ on purpose: one step with many long entries, one with defaults only
+    r = rng.random()
+    if r < 0.5:
+        i, j = rng.sample(range(n), 2)
+        steps[i] = dict(steps[i], added_sys_path=['list', [['str', B + '/lib%d' % k] for k in range(rng.randint(3, 7))]])
+        steps[j] = {'path': steps[j]['path']}
+    pre = rng.choice([None, None, 'garbage-long', 'newer-version', 'empty'])
+    return {'dirs': [proj_rel], 'steps': steps, 'pre': pre}
+
+
+PRE_FILES = {'garbage-long': '[1, {"path": "/nowhere", "added_sys_path": ["' + 'x' * 300 + '"]}]',
+             'newer-version': '[2, {"path": "/nowhere", "flux": ["' + 'y' * 120 + '"]}]',
+             'empty': ''}
+
+
+def run_savehist(spec, base):
+    """-> (pre content or None, [per step: {'ref': serialisation into an empty place, 'file': content after the save
+    in the history, 'saved': attrs, 'outcome': loaded attrs | error}], projects, loaded projects)"""
+    import jedi
+    path = mat(spec['steps'][0]['path'], base)
+    jpath = os.path.join(path, '.jedi', 'project.json')
+    projs = []
+    for kw in spec['steps']:
+        kw = {k: mat(v, base) for k, v in kw.items()}
+        kw.pop('path')
+        projs.append(jedi.Project(path, **kw))
+    refs = []
+    for pr in projs:                       # reference serialisations: the file is removed before every save
+        if os.path.exists(jpath):
+            os.remove(jpath)
+        pr.save()
+        with open(jpath, newline='') as f:
+            refs.append(f.read())
+    os.remove(jpath)
+    pre = None
+    if spec['pre'] is not None:
+        pre = PRE_FILES[spec['pre']]
+        with open(jpath, 'w', newline='') as f:
+            f.write(pre)
+    out, loaded_projs = [], []
+    for pr, ref in zip(projs, refs):
+        step = {'ref': ref, 'saved': proj_attrs(pr)}
+        try:
+            pr.save()
+        except Exception as e:   # noqa
+            step['outcome'] = {'save': {'error': type(e).__name__}, 'message': str(e)[:200]}
+            out.append(step)
+            loaded_projs.append(None)
+            continue
+        with open(jpath, newline='') as f:
+            step['file'] = f.read()
+        try:
+            q = jedi.Project.load(path)
+            step['outcome'] = {'loaded': proj_attrs(q)}
+            loaded_projs.append(q)
+        except Exception as e:   # noqa
+            step['outcome'] = {'load': {'error': type(e).__name__}, 'message': str(e)[:200]}
+            loaded_projs.append(None)
+        out.append(step)
+    return pre, out, projs, loaded_projs
+
+
+def stream_savehist(ctx, reqs, sc):
+    rng = ctx.subrng('savehist')
+    cases = []
+    fixed = [{'dirs': ['pr'], 'pre': None,
+              'steps': [{'path': ['str', B + '/pr'], 'added_sys_path': ['list', [['str', B + '/lib1'], ['str', B + '/lib2']]]},
+                        {'path': ['str', B + '/pr']}]},
+             {'dirs': ['pr'], 'pre': 'garbage-long', 'steps': [{'path': ['str', B + '/pr']}, {'path': ['str', B + '/pr'], 'smart_sys_path': False}]}]
+    for spec in fixed + [gen_savehist_case(rng) for _ in range(ctx.size(120, 2500))]:
+        base = sc.case_dir()
+        scratch.build(base, dirs=spec['dirs'])
+        try:
+            pre, steps, projs, loaded = run_savehist(spec, base)
+        except Exception as e:   # noqa
+            cls, site = common.exc_site(e)
+            ctx.count('savehist-raised', json.dumps(spec, sort_keys=True), nontrivial=False, bucket=cls)
+            continue
+        lens = [len(st['ref']) for st in steps]
+        shrinks = any(b < a for a, b in zip(([len(pre)] if pre is not None else []) + lens, lens))
+        how = ('in a scratch dir, one project directory: [write a pre-existing .jedi/project.json]; for each step: '
+               'p = jedi.Project(path, **kw); p.save(); q = jedi.Project.load(path)')
+        for i, (st, pr, q) in enumerate(zip(steps, projs, loaded)):
+            case = {'spec': spec, 'step': i, 'shrinks': shrinks}
+            ctx.count('oracle-savehist', json.dumps([spec, i], sort_keys=True), nontrivial=shrinks,
+                      bucket='pre=%s/steps=%d/%s' % (spec['pre'], len(steps), 'shrinks' if shrinks else 'grows'))
+            if q is None:
+                ctx.fail('oracle-savehist', 'Project.save()/load() raises after an earlier save into the same directory',
+                         case, observed={k: v for k, v in st['outcome'].items()}, how=how)
+                break
+            oracle_saveload(ctx, {'kw': spec['steps'][i], 'history': spec}, pr, st['outcome'], q)
+        reqs.append({'op': 'savehist', 'pre': pre, 'writes': [st['ref'] for st in steps]})
+        cases.append((('savehist', spec, base), {'files': [st.get('file') for st in steps]}))
+    return cases
+
+
 # ----------------------------------------------------------------- stream: which module wins
 
 def stream_import_effect(ctx, sc):
@@ -588,6 +702,14 @@ def compare(ctx, cases, answers):
                 ctx.tie_broken('correspondence:saveload',
                                short({'spec': spec, 'impl-vs-model': unmat_deep(diff, base)}, 1500))
 
+        elif stream == 'savehist':
+            spec, base = key[1], key[2]
+            ctx.count('savehist', json.dumps(spec, sort_keys=True), nontrivial=len(impl['files']) > 1,
+                      bucket='pre=%s' % spec['pre'])
+            if ans.get('trace') != impl['files']:
+                ctx.tie_broken('correspondence:savehist',
+                               short({'spec': spec, 'mode': ans.get('mode'), 'impl-files': impl['files'],
+                                      'model-trace': ans.get('trace')}, 1500))
 
 def run(ctx):
     reqs = []
@@ -597,6 +719,7 @@ def run(ctx):
     with Scratch('c20') as sc:
         cases += stream_syspath(ctx, reqs, sc)
         cases += stream_saveload(ctx, reqs, sc)
+        cases += stream_savehist(ctx, reqs, sc)
         stream_import_effect(ctx, sc)
     if ctx.model_ok:
         answers = common.run_driver_parallel('C20', reqs)
